@@ -196,10 +196,39 @@ func RunC02(env *sim.Env) {
 		names = append(names, "/zcycle.jet")
 	}
 
+	// one run in 150: a diamond-shaped import graph - two templates per layer, each importing both
+	// templates of the next layer, 24 to 40 layers (at most 82 small templates). The number of ways to
+	// a leaf doubles with every layer; a Set that loads a template once per way never finishes
+	diamond := ""
+	if t.Choose(150) == 7 {
+		layers := t.Range(24, 40)
+		kw := []string{"import", "import", "extends"}[t.Choose(3)]
+		for i := 0; i < layers; i++ {
+			for _, ab := range []string{"a", "b"} {
+				body := dc.l + kw + fmt.Sprintf(` "/zd%sa%d.jet"`, "", i+1) + dc.r
+				if kw == "import" {
+					body += dc.l + kw + fmt.Sprintf(` "/zdb%d.jet"`, i+1) + dc.r
+				} else {
+					body += dc.l + fmt.Sprintf(`import "/zdb%d.jet"`, i+1) + dc.r
+				}
+				files[fmt.Sprintf("/zd%s%d.jet", ab, i)] = body
+			}
+		}
+		files[fmt.Sprintf("/zda%d.jet", layers)] = "leaf a"
+		files[fmt.Sprintf("/zdb%d.jet", layers)] = "leaf b"
+		diamond = dc.l + `import "/zda0.jet"` + dc.r + "hello"
+		env.Stat("probe:diamond_shaped_import_graph", 1)
+	}
+
 	// ---- loader with a fault plan for referenced files
 	mem := jet.NewInMemLoader()
 	for _, p := range names {
 		mem.Set(p, files[p])
+	}
+	for _, p := range sim.SortedKeys(files) {
+		if strings.HasPrefix(p, "/zd") {
+			mem.Set(p, files[p]) // the diamond's templates are reached through imports only
+		}
 	}
 	ld := loadersim.NewSimLoader(mem)
 	if t.Choose(4) == 3 {
@@ -223,6 +252,10 @@ func RunC02(env *sim.Env) {
 		calls = append(calls, call{"GetTemplate", p, ""})
 	}
 	calls = append(calls, call{"Parse", victim, src})
+	if diamond != "" {
+		// Parse never caches what it loads; GetTemplate does (unless in development mode)
+		calls = append(calls, call{"Parse", "/zdmain.jet", diamond}, call{"GetTemplate", "/zda0.jet", ""})
+	}
 	if t.Choose(4) == 3 {
 		// the same source under a name that contains a '%' (names are data, not format strings)
 		calls = append(calls, call{"Parse", "/pct-50%off.jet", src})
